@@ -115,6 +115,9 @@ def generate(rng, tier):
     for shape in D.SUB_SHAPES + D.CMP_SHAPES:
         for _ in range(n_chain):
             yield D.random_history(rng, shape)
+    for shape in D.P_SHAPES:
+        for _ in range(n_odd):
+            yield D.rejected_history(rng, shape)
 
 
 def nontrivial(case, out):
@@ -481,6 +484,37 @@ except (TraitError, RecursionError, AttributeError) as e:
 """
 
 
+_NONSTR_PREFIX_PROBE = """
+import sys
+sys.path.insert(0, %r)
+from traits.api import HasTraits, Instance, DelegatesTo, PrototypedFrom, Int
+class T(HasTraits):
+    q_x = Int(3)
+    q_y = Int(4)
+class A(HasTraits):
+    __prefix__ = 'q_'
+    d = Instance(HasTraits)
+    x = DelegatesTo('d', prefix='*')
+    y = PrototypedFrom('d', prefix='*')
+a = A(d=T())
+assert a.x == 3 and a.y == 4
+A.__prefix__ = 5            # the name computation (PyUnicode_Concat) now fails
+what = %r
+for nm in ('x', 'y'):
+    try:
+        if what == 'read':
+            getattr(a, nm)
+        elif what == 'write':
+            setattr(a, nm, 7)
+        else:
+            a.base_trait(nm)
+        print(what + ' ' + nm + ': no error')
+    except Exception as e:
+        print(what + ' ' + nm + ': ' + type(e).__name__)
+    sys.stdout.flush()
+"""
+
+
 def extra_checks(ctx):
     hits = []
     p = subprocess.run([sys.executable, "-c", _CYCLE_PROBE % ctx["scratch"]], capture_output=True, text=True,
@@ -493,4 +527,17 @@ def extra_checks(ctx):
         hits.append(_hit("delegate-cycle-read:crash", "reading a deferring attribute through a cyclic delegate graph "
                          "killed the interpreter (rc=%s)" % p.returncode, stdout=out[-300:], no_shrink=True,
                          case=None))
+    # a non-str __prefix__: the name computation of delegate_attr_name_class_name fails (fix e4a9aa5 for
+    # getattr_delegate / setattr_delegate, fix 4e38e77 of finding F111 for _has_traits_trait / base_trait: TypeError,
+    # nothing changed; Lean C11_name_failure_is_error_exit)
+    for what in ("read", "write", "base_trait"):
+        p = subprocess.run([sys.executable, "-c", _NONSTR_PREFIX_PROBE % (ctx["scratch"], what)], capture_output=True,
+                           text=True, timeout=120)
+        ok = p.returncode == 0 and all(("%s %s: TypeError" % (what, nm)) in p.stdout for nm in ("x", "y"))
+        if not ok:
+            sig = ("base-trait-nonstr-prefix:crash" if what == "base_trait" and p.returncode < 0 else
+                   "delegate-nonstr-prefix:%s-%s" % (what, "crash" if p.returncode < 0 else "no-type-error"))
+            hits.append(_hit(sig, "with a non-str __prefix__ on the class, %s of a prefix='*' deferring attribute must "
+                             "raise TypeError and change nothing (rc=%s)" % (what, p.returncode),
+                             stdout=p.stdout[-300:], no_shrink=True, case=None))
     return hits
